@@ -5,6 +5,9 @@
 
 use std::process::exit;
 
+#[global_allocator]
+static ALLOC: vbase::alloc::VAlloc = vbase::alloc::VAlloc;
+
 use vlib::checks;
 use vlib::engine::{self, Ctx, Tier};
 
